@@ -182,7 +182,7 @@ func (m *Machine) spawn(parent *Thread, tgt callTarget, args []Value) {
 		m.unsupported("go intrinsic " + fi.name)
 	}
 	fn, binds := tgt.fn, tgt.binds
-	if fi.redirect != nil {
+	if fi.redirect != nil && (fi.rmode == "" || m.modes[fi.rmode]) {
 		fn, binds = fi.redirect, nil
 	}
 	m.pushFrame(th, fn, binds, args, -1)
